@@ -20,6 +20,7 @@ MC = {
     'C07': 'Layer I incl. the max_*_buffer_length formulas of decoders and encoders: InvokeQueried in every reachable state model-checked by TLC; on replay the real query answer is compared with the formula',
     'C08': 'liveness on Layer I x monitor: under weak fairness of minimum-capacity calls with last=true TLC proves <>(done) for decoders (MC_DecLive) and encoders (MC_EncLive)',
     'C10': 'Layer I life-cycle automaton (11 states, morphing, pending BOM bytes) x monitor with the BOM-wrapper oracle model-checked exhaustively by TLC; exported behaviours replayed on the real code',
+    'C11': 'Layer I of the one-shot API (for_bom, borrow decisions, allocation arithmetic, decode_to_string / encode_from_utf8_to_vec loops with reserve, flag accumulation) judged by the one-shot monitor rule under TLC on every short input over class alphabets; all inputs replayed on the real API and compared',
     'C13': 'Layer I three-phase label scanner model-checked by TLC to equal get-an-encoding on every short string over a class alphabet and around the 19-byte cut-off (MC_Labels)',
     'C19': 'Layer I latin1_byte_compatible_up_to (life-cycle arms, in_neutral_state per variant) asked before every modelled call, judged by the monitor under TLC and compared with the real answer on replay',
 }
